@@ -236,3 +236,62 @@ Proof.
   exists p. split; [reflexivity|].
   exact (Frag1Glue.frag1_compile_correct_lemma prog5 p (proj1 progs_in_frag1) E).
 Qed.
+
+(* ---- the fragment F2: string literals as values ---- *)
+From GL Require Import CC.Frag2Sem.
+From GL Require CC.Frag2Facts CC.Frag2Eval CC.Frag2Glue.
+Definition vs : name := [115]. Definition vt : name := [116]. Definition vn : name := [110].
+Definition str_x : bytes := [120]. Definition str_y : bytes := [121]. Definition str_lit : bytes := [108; 105; 116].
+
+(* local s, n = "x", 1; local t = s; s = not s; n, t = n + 1, "y"; return s, t, n, "lit", not "y" *)
+Definition prog8 : list stmt :=
+  [SLocal 1 [vs; vn] [EStr str_x; ENum 1];
+   SLocal 2 [vt] [EVar vs];
+   SAssign 3 [EVar vs] [EUn ONot (EVar vs)];
+   SAssign 4 [EVar vn; EVar vt] [EBin OAdd (EVar vn) (ENum 1); EStr str_y];
+   SReturn 5 [EVar vs; EVar vt; EVar vn; EStr str_lit; EUn ONot (EStr str_y)]].
+
+(* local s = "x"; local n = nil; return n + 1, s      (a fault next to a string) *)
+Definition prog9 : list stmt :=
+  [SLocal 1 [vs] [EStr str_x]; SLocal 2 [vn] [ENil]; SReturn 3 [EBin OAdd (EVar vn) (ENum 1); EVar vs]].
+
+(* arithmetic on a local that may hold a string is outside F2: local s = "1"; return s + 1 *)
+Definition prog10 : list stmt := [SLocal 1 [vs] [EStr [49]]; SReturn 2 [EBin OAdd (EVar vs) (ENum 1)]].
+
+Example progs_in_frag2 :
+  in_frag2 prog8 = true /\ in_frag2 prog9 = true /\ in_frag2 prog10 = false /\
+  in_frag1 prog8 = false /\ in_frag1 prog9 = false /\ in_frag2 prog5 = true /\ in_frag2 prog1 = true /\
+  tie_frag prog8 = true /\ tie_frag prog9 = true /\ taint prog8 = [vt; vs].
+Proof. vm_compute. repeat split; reflexivity. Qed.
+
+Example progs2_compile : (exists p, compile_frag prog8 = Some p) /\ (exists p, compile_frag prog9 = Some p).
+Proof. split; eexists; vm_compute; reflexivity. Qed.
+
+Example prun2_values :
+  prun2 [] prog8 = CRet [VBool false; VStr str_y; VNum 2; VStr str_lit; VBool false] /\ prun2 [] prog9 = CFault 3.
+Proof. vm_compute. split; reflexivity. Qed.
+
+Example prog8_equation :
+  vm_outcome (compiled prog8) = outcome_of (run_program fuel no_devs prog8) /\
+  vm_outcome (compiled prog8) = Outcome [] (OOk [OBool false; OStr str_y; ONum 2; OStr str_lit; OBool false]).
+Proof. vm_compute. split; reflexivity. Qed.
+
+Example prog9_equation :
+  vm_outcome (compiled prog9) = outcome_of (run_program fuel no_devs prog9) /\
+  vm_outcome (compiled prog9) = Outcome [] (OErr (OFault 2 3)).
+Proof. vm_compute. split; reflexivity. Qed.
+
+Example isem_is_prun2 :
+  isem_code (fst (ucode prog8)) (snd (ucode prog8)) [] = prun2 [] prog8 /\
+  isem_code (fst (ucode prog9)) (snd (ucode prog9)) [] = prun2 [] prog9.
+Proof. vm_compute. split; reflexivity. Qed.
+
+Example frag2_compile_correct_applies : exists p, compile_frag prog8 = Some p /\
+  exists n, forall fuel, (n <= fuel)%nat ->
+    is_skip (outcome_of (run_program fuel no_devs prog8)) = false ->
+    outcome_of_vfin (run_proto fuel p) = outcome_of (run_program fuel no_devs prog8).
+Proof.
+  destruct (compile_frag prog8) as [p|] eqn:E; [|vm_compute in E; discriminate].
+  exists p. split; [reflexivity|].
+  exact (Frag2Glue.frag2_compile_correct_lemma prog8 p (proj1 progs_in_frag2) E).
+Qed.
